@@ -259,9 +259,13 @@ pub fn inputs_c14(r: &mut Rng, n: usize, _tier: &str, out: &mut dyn Write) {
             }
         }
         .clamp(DMIN, DMAX);
-        // operands that are exact multiples of the step, and one off
+        // operands that are exact multiples of the step, and one off; exact TIES for round (a = k*s + s/2, even steps,
+        // both signs, mostly above -1 century so that they are not all in the recorded class D1)
         let a = if r.chance(1, 5) && s != 0 {
             (a / s * s + r.range_i64(-1, 1) as i128).clamp(DMIN, DMAX)
+        } else if r.chance(1, 8) && s != 0 && s % 2 == 0 {
+            let k = r.range_i64(-1000, 100000) as i128;
+            (k * s.abs() + s.abs() / 2).clamp(-NPC, DMAX)
         } else {
             a
         };
@@ -283,7 +287,16 @@ pub fn inputs_c14(r: &mut Rng, n: usize, _tier: &str, out: &mut dyn Write) {
             0 | 1 => writeln!(out, "floor {} {}", dstr(a), dstr(s)).unwrap(),
             2 | 3 => writeln!(out, "ceil {} {}", dstr(a), dstr(s)).unwrap(),
             4 | 5 => writeln!(out, "round {} {}", dstr(a), dstr(s)).unwrap(),
-            _ => writeln!(out, "approx {}", dstr(a)).unwrap(),
+            _ => {
+                // approx: also magnitudes between 1 ns and a few days, where its ms / us / s / min / h arms are taken
+                let a = if r.chance(1, 2) {
+                    let m: i128 = *r.pick(&[1i128, 1_000, 1_000_000, 1_000_000_000, 60_000_000_000, 3_600_000_000_000, 86_400_000_000_000]);
+                    (m * r.range_i64(1, 999) as i128 + r.below(m as u64) as i128) * if r.chance(1, 3) { -1 } else { 1 }
+                } else {
+                    a
+                };
+                writeln!(out, "approx {}", dstr(a)).unwrap()
+            }
         }
     }
 }
